@@ -21,7 +21,14 @@ RULE = ("random nestings (depth up to 8) of `with action`, `with action.context(
         "entered and run on another thread than the one that created the Action. part 'scenario': an enclosing action finished explicitly from inside an inner block (every block still restores its predecessor, one end "
         "message each), and a generator returned through Action.run() iterated after run() returned (the action is current during run() only). "
         "part 'fork': os.fork() inside 1-4 open blocks; the child "
-        "finds the innermost action current, logs below it, and leaving the inherited blocks restores the enclosing actions. non-trivial = an exceptional exit at "
+        "finds the innermost action current, logs below it, and leaving the inherited blocks restores the enclosing actions. "
+        "part 'recursion': a recursive function / node method of the shape `with node_action: recurse(child)` (also context()/run() levels, 0-3 extra frames per "
+        "level) over actions started beforehand runs into the interpreter's recursion limit (limit swept over a full period of the frames one level takes, so that "
+        "the deepest block is entered at the very edge); the RecursionError is caught above all blocks or a few levels down, afterwards current_action() is what it "
+        "was there and later messages/actions attach there. part 'inherit': flows that have their current action only through a copied context (asyncio task created "
+        "inside `with start_action(...)` without `as`, call_soon/call_later callbacks, copy_context().run, a thread started through a copied context) and go on after "
+        "the creating block was left, garbage collected and no Action object kept by the harness: the inherited action stays current, blocks entered before or "
+        "after restore it, messages are placed below it (compared by task_uuid/task_level values). non-trivial = an exceptional exit at "
         "depth >=2 (previous action not None); distinct by program shape")
 ASSUMPTIONS = ["generator-held blocks are closed only when the driver's context is what it was at the yield (properly nested use)"]
 BATCH = 50
@@ -35,6 +42,10 @@ def plan(tier, seed):
     specs += [{"part": "scenario", "seed": seed, "lo": i, "hi": min(k, i + 100), "tier": tier} for i in range(0, k, 100)]
     m = 200 if tier == "quick" else 2000
     specs += [{"part": "fork", "seed": seed, "lo": i, "hi": min(m, i + 20), "tier": tier} for i in range(0, m, 20)]
+    q = 40 if tier == "quick" else 400
+    specs += [{"part": "recursion", "seed": seed, "lo": i, "hi": min(q, i + 10), "tier": tier} for i in range(0, q, 10)]
+    q = 280 if tier == "quick" else 2800
+    specs += [{"part": "inherit", "seed": seed, "lo": i, "hi": min(q, i + 35), "tier": tier} for i in range(0, q, 35)]
     return specs
 
 
@@ -302,6 +313,533 @@ def fork_case(seed, i, res):
         res["violations"].append({"msg": problems[0], "mech": None, "detail": {"part": "fork", "kinds": kinds, "problems": problems[:6]}})
 
 
+def _ident(action):
+    """What the harness remembers of an action: values, never the object (a remembered object would keep it alive)."""
+    if action is None:
+        return None
+    return (action.task_uuid, action._task_level.as_list())
+
+
+def recursion_case(seed, i, tier, res):
+    """A recursion of the shape `with node_action: recurse(child)` over actions started beforehand that runs into the interpreter's
+    recursion limit; the RecursionError leaves all the blocks and is caught far up (or a few levels down). Afterwards the current
+    action is what it was there before the recursion, and what is logged next is attached there. The limit is swept over one
+    full period of the frames a level takes, so that in one of the runs the deepest block is entered at the very edge."""
+    import contextvars
+    import sys
+    rng = random.Random("%s:C04:rec:%d" % (seed, i))
+    pad = rng.choice([0, 0, 1, 2, 3])
+    shape = rng.choice(["function", "function", "method"])
+    mixed = shape == "function" and rng.random() < 0.4
+    outer_kinds = [rng.choice(["with", "context", "run"]) for _ in range(rng.randint(0, 3))]
+    catch_level = rng.choice([None, None, None, 2, 7])
+    created = rng.choice(["top", "inside"])
+    base = rng.randint(100, 260 if tier == "quick" else 900)
+    got = []
+    add_destinations(got.append)
+    old = sys.getrecursionlimit()
+    c = res["counters"]
+    try:
+        for off in range(pad + 2):
+            limit = base + off
+            kinds = ["with" if not mixed or rng.random() < 0.6 else rng.choice(["context", "run"]) for _ in range(limit + 40)]
+            del got[:]
+            try:
+                problems, state = contextvars.copy_context().run(_recursion_run, limit, pad, shape, kinds, outer_kinds, catch_level, created, got, c)
+            except BaseException as e:
+                problems, state = ["recursion scenario raised %r" % (e,)], {}
+            finally:
+                sys.setrecursionlimit(old)
+            res["evals"] += 1
+            if state.get("unwound"):
+                c["recursion_unwinds"] = c.get("recursion_unwinds", 0) + 1
+                if state.get("edge", -1) >= 0 and state["edge"] == state["deepest"]:
+                    c["recursion_edge_exits"] = c.get("recursion_edge_exits", 0) + 1
+                    res["nontrivial"].append(h(["recursion", shape, pad, mixed, outer_kinds, catch_level, created]))
+            if problems:
+                res["violations"].append({"msg": problems[0], "mech": None, "detail": {
+                    "part": "recursion", "case": i, "limit": limit, "pad": pad, "shape": shape, "mixed": mixed, "outer": outer_kinds,
+                    "catch_level": catch_level, "created": created, "deepest_block": state.get("deepest"), "edge_block": state.get("edge"),
+                    "problems": problems[:6]}})
+    finally:
+        sys.setrecursionlimit(old)
+        remove_destination(got.append)
+
+
+def _recursion_run(limit, pad, shape, kinds, outer_kinds, catch_level, created, got, c):
+    import sys
+    from eliot import current_action, log_message, start_action
+    problems = []
+    names = {}
+    state = {"deepest": -1, "edge": -1, "caught": None, "unwound": False}
+    old = sys.getrecursionlimit()
+    n = len(kinds)
+    box = {}
+
+    def name(a):
+        return "None" if a is None else "<Action %s>" % names.get(id(a), "?")
+
+    def expect(action, where):
+        c["context_probes"] = c.get("context_probes", 0) + 1
+        now = current_action()
+        if now is not action:
+            problems.append("current_action() is %s, expected %s (%s)" % (name(now), name(action), where))
+
+    def placed(m, action, where, start=False):
+        # m was logged where `action` is expected to be the current action
+        if action is None:
+            if m["task_level"] != [1] or m["task_uuid"] in box["uuids"]:
+                problems.append("%s: logged with no current action, it did not form its own task: task_level=%r, task_uuid is %s" % (
+                    where, m["task_level"], "that of an earlier action" if m["task_uuid"] in box["uuids"] else "new"))
+        else:
+            lvl = m["task_level"][:-2] if start else m["task_level"][:-1]
+            if m["task_uuid"] != action.task_uuid or lvl != action._task_level.as_list():
+                problems.append("%s: not attached to %s: task_level=%r (that action's level is %r), same task: %r" % (
+                    where, name(action), m["task_level"], action._task_level.as_list(), m["task_uuid"] == action.task_uuid))
+
+    def make():
+        acts = [start_action(action_type="rec:lvl", n=k) for k in range(n)]
+        for k, a in enumerate(acts):
+            names[id(a)] = "level-%d" % k
+        box["actions"] = acts
+
+    def two():
+        pass
+
+    def one():
+        two()
+
+    def pad_call(i, p):
+        if p > 0:
+            return pad_call(i, p - 1)
+        return box["walkers"][i](i)
+
+    def walk(i):
+        a = box["actions"][i]
+        k = kinds[i]
+        if k == "with":
+            with a:
+                state["deepest"] = i
+                try:
+                    one()
+                except RecursionError:
+                    state["edge"] = i  # this frame is at depth limit-1: a callee still fits, a callee of a callee does not
+                if pad:
+                    pad_call(i + 1, pad - 1)
+                else:
+                    box["walkers"][i + 1](i + 1)
+        elif k == "context":
+            with a.context():
+                state["deepest"] = i
+                if pad:
+                    pad_call(i + 1, pad - 1)
+                else:
+                    box["walkers"][i + 1](i + 1)
+        elif pad:
+            a.run(pad_call, i + 1, pad - 1)
+        else:
+            a.run(box["walkers"][i + 1], i + 1)
+
+    def walk_catching(i):
+        a = box["actions"][i]
+        with a:
+            try:
+                if pad:
+                    pad_call(i + 1, pad - 1)
+                else:
+                    box["walkers"][i + 1](i + 1)
+            except RecursionError:
+                state["caught"] = i
+                state["unwound"] = True
+            sys.setrecursionlimit(old)
+            expect(a, "inside block %d, after the RecursionError of the recursion below it was caught there" % i)
+            log_message(message_type="rec:caught")
+            placed(got[-1], a, "message logged inside block %d after the RecursionError was caught there" % i)
+
+    class Node(object):
+        def __init__(self, k, action, child):
+            self.k = k
+            self.action = action
+            self.child = child
+
+        def down(self, p):
+            if p > 0:
+                return self.down(p - 1)
+            return self.child.visit()
+
+        def visit(self):
+            with self.action:
+                state["deepest"] = self.k
+                try:
+                    one()
+                except RecursionError:
+                    state["edge"] = self.k
+                if self.k == catch_level:
+                    try:
+                        self.down(pad - 1) if pad else self.child.visit()
+                    except RecursionError:
+                        state["caught"] = self.k
+                        state["unwound"] = True
+                    sys.setrecursionlimit(old)
+                    expect(self.action, "inside node %d's block, after the RecursionError of the recursion below it was caught there" % self.k)
+                    log_message(message_type="rec:caught")
+                    placed(got[-1], self.action, "message logged inside node %d's block after the RecursionError was caught there" % self.k)
+                elif pad:
+                    self.down(pad - 1)
+                else:
+                    self.child.visit()
+
+    def core():
+        before = current_action()
+        if created == "inside":
+            make()
+        box["uuids"] = set(m["task_uuid"] for m in got)
+        box["walkers"] = [walk_catching if k == catch_level else walk for k in range(n)]
+        if shape == "method":
+            node = None
+            for k in reversed(range(n)):
+                node = Node(k, box["actions"][k], node)
+            start = node.visit
+        else:
+            start = lambda: box["walkers"][0](0)
+        sys.setrecursionlimit(limit)
+        try:
+            try:
+                start()
+            finally:
+                sys.setrecursionlimit(old)
+        except RecursionError:
+            state["unwound"] = True
+        if not state["unwound"]:
+            return
+        how = "a RecursionError at recursion limit %d left the nested blocks (deepest entered: %d) and was caught %s" % (
+            limit, state["deepest"], "above all of them" if state["caught"] is None else "in block %d" % state["caught"])
+        expect(before, "after " + how)
+        log_message(message_type="rec:after")
+        placed(got[-1], before, "message logged after " + how)
+        k0 = len(got)
+        with start_action(action_type="rec:later") as later:
+            names[id(later)] = "later"
+            placed(got[k0], before, "action started after " + how, start=True)
+            expect(later, "inside a block entered after the recursion")
+        expect(before, "after leaving a block entered after the recursion")
+
+    def nest(level):
+        if level == len(outer_kinds):
+            core()
+            return
+        a = start_action(action_type="rec:outer%d" % level)
+        names[id(a)] = "outer-%d" % level
+        prev = current_action()
+        if outer_kinds[level] == "with":
+            with a:
+                nest(level + 1)
+                expect(a, "enclosing with-block %d after the recursion inside it" % level)
+        elif outer_kinds[level] == "context":
+            with a.context():
+                nest(level + 1)
+                expect(a, "enclosing context() %d after the recursion inside it" % level)
+            a.finish()
+        else:
+            def body():
+                nest(level + 1)
+                expect(a, "enclosing run() %d after the recursion inside it" % level)
+            a.run(body)
+            a.finish()
+        expect(prev, "after leaving enclosing block %d (%s)" % (level, outer_kinds[level]))
+
+    if current_action() is not None:
+        return ["precondition: there is a current action before the scenario"], state
+    if created == "top":
+        make()
+    nest(0)
+    if state["unwound"]:
+        expect(None, "after everything was left")
+        log_message(message_type="rec:top")
+        placed(got[-1], None, "message logged after all blocks were left")
+    return problems, state
+
+
+def inherit_case(seed, i, res):
+    """Flows that have their current action only through a copied context - an asyncio task created inside `with start_action(...):`
+    (no `as`), loop.call_soon/call_later callbacks scheduled there, contextvars.copy_context().run, a thread started through a
+    copied context - and that go on after the creating block was left. The harness keeps (task_uuid, task_level) values and
+    the messages, never Action objects, and collects garbage before the inheriting flow continues."""
+    import asyncio
+    import contextvars
+    import gc
+    import threading
+    from eliot import current_action, log_message, start_action, start_task
+    rng = random.Random("%s:C04:inh:%d" % (seed, i))
+    flow = ["task", "call_soon", "call_later", "copy_context", "thread", "call_soon_ctx", "task"][i % 7]
+    two_phase = flow == "call_soon_ctx" or (flow in ("task", "copy_context", "thread") and rng.random() < 0.6)
+    hold_kinds = [rng.choice(["with_start", "with_start", "with_task", "context"]) for _ in range(rng.randint(0, 3))]
+    seq_kinds = [rng.choice(["with_start", "with_task", "context", "run", "run_nested"]) for _ in range(rng.randint(1, 3))]
+    grand = rng.random() < 0.4
+    exit_exc = rng.random() < 0.3
+    problems = []
+    got = []
+    c = res["counters"]
+    st = {"late_probes": 0, "creator_left": False, "timeout": None}
+    add_destinations(got.append)
+
+    def from_start(m):
+        return (m["task_uuid"], m["task_level"][:-1])
+
+    def show(x):
+        return "None" if x is None else "the action at task %s level %r" % (x[0][:8], x[1])
+
+    def probe(stack, where):
+        c["context_probes"] = c.get("context_probes", 0) + 1
+        if st["creator_left"]:
+            st["late_probes"] += 1
+        now = _ident(current_action())
+        if now != stack[-1]:
+            problems.append("%s flow, %s: current_action() is %s, expected %s" % (flow, where, show(now), show(stack[-1])))
+        log_message(message_type="inh:probe", where=where)
+        m = got[-1]
+        if from_start(m) != stack[-1]:
+            problems.append("%s flow, %s: a message logged there is placed at task %s level %r, expected a direct child of %s" % (
+                flow, where, m["task_uuid"][:8], m["task_level"], show(stack[-1])))
+
+    def entered_child(stack, k0, where):
+        m = got[k0]
+        me = from_start(m)
+        if (me[0], me[1][:-1]) != stack[-1] or not me[1]:
+            problems.append("%s flow, %s: an action started there is placed at task %s level %r, expected a child of %s" % (
+                flow, where, m["task_uuid"][:8], m["task_level"], show(stack[-1])))
+        return me
+
+    def complete(stack, kind, where):
+        """enter and leave one construct without pausing"""
+        k0 = len(got)
+        if kind == "with_start":
+            with start_action(action_type="inh:child"):
+                stack.append(entered_child(stack, k0, where))
+                probe(stack, "inside `with start_action()` " + where)
+                stack.pop()
+        elif kind == "with_task":
+            with start_task(action_type="inh:task"):
+                stack.append(from_start(got[k0]))
+                probe(stack, "inside `with start_task()` " + where)
+                stack.pop()
+        elif kind == "context":
+            other = start_task(action_type="inh:other")
+            with other.context():
+                stack.append(from_start(got[k0]))
+                probe(stack, "inside `with other.context()` " + where)
+                stack.pop()
+            other.finish()
+        else:
+            other = start_task(action_type="inh:other")
+
+            def f():
+                stack.append(from_start(got[k0]))
+                probe(stack, "inside other.run(f) " + where)
+                if kind == "run_nested":
+                    complete(stack, "with_start", "nested in other.run(f) " + where)
+                    probe(stack, "inside other.run(f) after a nested block, " + where)
+                stack.pop()
+            other.run(f)
+            other.finish()
+        probe(stack, "after leaving %s %s" % (kind, where))
+
+    def hold(stack, level):
+        """generator: enters the held blocks, pauses once (two_phase) inside them, goes on, leaves them"""
+        if level == len(hold_kinds):
+            if two_phase:
+                yield "pause"
+                probe(stack, "resumed after the creating block was left, inside %d blocks of its own (it left none meanwhile)" % level)
+            for j, kind in enumerate(seq_kinds):
+                complete(stack, kind, "(construct %d inside %d held blocks, creating block already left)" % (j, level))
+            return
+        kind = hold_kinds[level]
+        k0 = len(got)
+        if kind == "with_start":
+            with start_action(action_type="inh:held"):
+                stack.append(entered_child(stack, k0, "held block %d" % level))
+                probe(stack, "inside held `with start_action()` block %d" % level)
+                yield from hold(stack, level + 1)
+                probe(stack, "inside held `with start_action()` block %d after its inner blocks" % level)
+                stack.pop()
+        elif kind == "with_task":
+            with start_task(action_type="inh:heldtask"):
+                stack.append(from_start(got[k0]))
+                probe(stack, "inside held `with start_task()` block %d" % level)
+                yield from hold(stack, level + 1)
+                stack.pop()
+        else:
+            other = start_task(action_type="inh:heldother")
+            with other.context():
+                stack.append(from_start(got[k0]))
+                probe(stack, "inside held `with other.context()` block %d" % level)
+                yield from hold(stack, level + 1)
+                stack.pop()
+            other.finish()
+        probe(stack, "after leaving held block %d (%s) that was entered %s the creating block was left" % (
+            level, kind, "before and left after" if two_phase else "after"))
+
+    def body(parent):
+        stack = [parent]
+        probe(stack, "first look at the inherited context (%s)" % (
+            "creating block still open" if not st["creator_left"] else "creating block already left, nothing else refers to its action"))
+        yield from hold(stack, 0)
+        probe(stack, "end of the flow")
+
+    def drain(g):
+        for _ in g:
+            raise AssertionError("second pause")
+
+    class Leave(Exception):
+        pass
+
+    def left():
+        st["creator_left"] = True
+        gc.collect()
+
+    async def amain():
+        loop = asyncio.get_running_loop()
+        inside = asyncio.Event()
+        go = asyncio.Event()
+        done = asyncio.Event()
+
+        async def worker(parent):
+            try:
+                for _ in body(parent):
+                    inside.set()
+                    await go.wait()
+            except BaseException as e:
+                problems.append("%s flow raised %r" % (flow, e))
+            finally:
+                inside.set()
+                done.set()
+
+        def callback(parent):
+            try:
+                drain(body(parent))
+            except BaseException as e:
+                problems.append("%s flow raised %r" % (flow, e))
+            finally:
+                done.set()
+
+        def step(g, last):
+            try:
+                drain(g) if last else next(g)
+            except BaseException as e:
+                problems.append("%s flow raised %r" % (flow, e))
+            finally:
+                (done if last else inside).set()
+        g = None
+        try:
+            with start_action(action_type="inh:parent", case=i):
+                parent = from_start(got[-1])
+                if flow == "task":
+                    t = loop.create_task(worker(parent)) if rng.random() < 0.5 else asyncio.ensure_future(worker(parent))
+                    if two_phase:
+                        await inside.wait()
+                    del t
+                elif flow == "call_soon":
+                    loop.call_soon(callback, parent)
+                elif flow == "call_later":
+                    loop.call_later(0, callback, parent)
+                else:
+                    ctx = contextvars.copy_context()
+                    g = body(parent)
+                    loop.call_soon(step, g, False, context=ctx)
+                    await inside.wait()
+                if exit_exc:
+                    raise Leave()
+        except Leave:
+            pass
+        left()
+        if g is not None:
+            loop.call_soon(step, g, True, context=ctx)
+        go.set()
+        try:
+            await asyncio.wait_for(done.wait(), 60)
+        except asyncio.TimeoutError:
+            st["timeout"] = "%s flow did not end" % flow
+
+    def sync_main():
+        inside = threading.Event()
+        go = threading.Event()
+        thread = None
+
+        def runner(parent):
+            try:
+                if not two_phase and not go.wait(60):
+                    st["timeout"] = "thread flow was not released"
+                    return
+                for _ in body(parent):
+                    inside.set()
+                    if not go.wait(60):
+                        st["timeout"] = "thread flow was not released"
+                        return
+            except BaseException as e:
+                problems.append("%s flow raised %r" % (flow, e))
+            finally:
+                inside.set()
+        try:
+            with start_action(action_type="inh:parent", case=i):
+                parent = from_start(got[-1])
+                ctx = contextvars.copy_context()
+                if flow == "thread":
+                    thread = threading.Thread(target=ctx.run, args=(runner, parent))
+                    thread.daemon = True
+                    thread.start()
+                    if two_phase and not inside.wait(60):
+                        st["timeout"] = "thread flow did not reach its pause"
+                else:
+                    g = body(parent)
+                    if two_phase:
+                        ctx.run(next, g)
+                if exit_exc:
+                    raise Leave()
+        except Leave:
+            pass
+        left()
+        if flow == "thread":
+            go.set()
+            thread.join(60)
+            if thread.is_alive():
+                st["timeout"] = "thread flow did not end"
+        else:
+            ctx.run(drain, g)
+
+    def creator():
+        if flow in ("thread", "copy_context"):
+            sync_main()
+        else:
+            asyncio.run(amain())
+
+    try:
+        if grand:
+            with start_action(action_type="inh:grand") as g_action:
+                creator()
+                if current_action() is not g_action:
+                    problems.append("creating code: after its block current_action() is not the enclosing action")
+        else:
+            creator()
+        if current_action() is not None:
+            problems.append("creating code: current_action() is not None after all its blocks were left")
+    except BaseException as e:
+        problems.append("inherited-context scenario (%s) raised %r" % (flow, e))
+    finally:
+        remove_destination(got.append)
+    res["evals"] += 1
+    if st["timeout"]:
+        res["inconclusive"] = st["timeout"]
+        return
+    c["inherited_flow_probes"] = c.get("inherited_flow_probes", 0) + st["late_probes"]
+    d = c.setdefault("inherited_flows", {})
+    d[flow] = d.get(flow, 0) + 1
+    res["nontrivial"].append(h(["inherit", flow, two_phase, hold_kinds, seq_kinds, grand, exit_exc]))
+    if problems:
+        res["violations"].append({"msg": problems[0], "mech": None, "detail": {
+            "part": "inherit", "case": i, "flow": flow, "two_phase": two_phase, "held": hold_kinds, "then": seq_kinds, "grandparent": grand,
+            "creator_left_by_exception": exit_exc, "problems": problems[:8]}})
+
+
 def run_case(spec):
     res = {"evals": 0, "nontrivial": [], "counters": {}, "violations": [], "sample": None}
     if spec.get("part") == "scenario":
@@ -314,6 +852,16 @@ def run_case(spec):
             fork_case(spec["seed"], i, res)
         res["sets"] = {"depths": []}
         return res
+    if spec.get("part") == "recursion":
+        for i in range(spec["lo"], spec["hi"]):
+            recursion_case(spec["seed"], i, spec["tier"], res)
+        res["sets"] = {"depths": []}
+        return res
+    if spec.get("part") == "inherit":
+        for i in range(spec["lo"], spec["hi"]):
+            inherit_case(spec["seed"], i, res)
+        res["sets"] = {"depths": []}
+        return res
     for i in range(spec["lo"], spec["hi"]):
         one(spec["seed"], i, spec["tier"], res)
     # max is not additive: report it through a set instead
@@ -324,4 +872,8 @@ def run_case(spec):
 def finalize(agg, tier):
     if agg["counters"].get("context_probes", 0) < 10000:
         return "fewer than 10000 context probes"
+    if not agg["counters"].get("recursion_edge_exits", 0):
+        return "no recursion ran into the recursion limit with its deepest block entered at the very edge"
+    if not agg["counters"].get("inherited_flow_probes", 0):
+        return "no flow with an inherited context was probed after its creating block was left"
     return None
